@@ -216,6 +216,8 @@ def gen_world(w, n_membranes=(2, 4), small=False):
             meas.append({"from_set": ci, "component": w.choice([0, 1])})
     for _ in range(w.randint(1, 2)):
         meas.append({"points": synth_points(w)})
+    if w.random() < 0.05:
+        meas.append({"points": synth_points(w, npts=w.randint(101, 130), ntemps=w.randint(2, 4))})    # a large data set (rare: fits get slow)
     spec["measurements"] = meas
     spec["functions"] = [gen_function(w) for _ in range(w.randint(2, 4))]
     spec["vle"] = sorted(set(w.sample(VLE_SMALL, w.randint(1, 2))))
@@ -263,6 +265,11 @@ def synth_points(w, npts=None, ntemps=None, endpoints=0.35):
         p = alpha * math.exp(e + b[0] / 330.0) * (1 + w.uniform(-noise, noise))
         p = min(max(p, 1e-6), 1.0)
         pts.append([x, t, float("%.9g" % p)])
+    if w.random() < 0.25 and len(pts) >= 3:
+        # one measurement logged several times (exact duplicates, unequal multiplicities)
+        src = pts[w.randrange(len(pts))]
+        for _ in range(w.randint(1, 5)):
+            pts.insert(w.randrange(len(pts) + 1), list(src))
     if w.random() < endpoints:
         # measurements at the pure-component ends are legal data too
         for k in range(min(len(pts), w.randint(1, 3))):
@@ -615,8 +622,8 @@ def g_fit(o, M, best=None, allow_none=True, max_n=3, max_m=3):
         if allow_none and npts <= 16 and o.random() < 0.15:
             pass
         else:
-            a["n"] = o.randint(0, max_n)
-            a["m"] = o.randint(0, max_m if ntemps > 1 else min(max_m, 1))
+            a["n"] = o.randint(0, max_n if npts <= 60 else 1)
+            a["m"] = o.randint(0, (max_m if npts <= 60 else 1) if ntemps > 1 else min(max_m, 1))
     if o.random() < 0.35:
         a["include_zero"] = True
     r = o.random()
@@ -884,9 +891,13 @@ def witness_battery(plan):
                                                                             "composition": {"$new_comp": [0.5, "weight"]},
                                                                             "first_component_permeance": {"$new_perm": [0.0, None]},
                                                                             "second_component_permeance": {"$new_perm": [0.0, None]}}})
+    M = Meta(spec)
     for k in range(min(2, len(spec.get("measurements", [])))):
         ops.append({"fn": "fit", "id": "battery", "args": {"data": ref("measurements", k), "n": 1, "m": 0}})
-        ops.append({"fn": "fit", "id": "battery", "args": {"data": ref("measurements", k)}})
+        if meas_info(M, k)[0] <= 12:       # default orders grow with sqrt(len(data)); keep the battery cheap
+            ops.append({"fn": "fit", "id": "battery", "args": {"data": ref("measurements", k)}})
+    if spec.get("vle"):
+        ops.append({"fn": "fit_vle", "id": "battery", "args": {"data": ref("vle", 0), "method": "Powell"}})
     # evaluations that overflow (exp -> inf), underflow and produce 0*inf: outcomes depend on numpy's error state
     ops.append({"fn": "fn_new_call", "id": "battery", "spec": {"n": 1, "m": 0, "alpha": 0.0, "a": [900.0], "b": [0.0], "array": True},
                 "grid_args": [[1.0, 300.0], [0.5, 300.0]]})
